@@ -90,7 +90,8 @@ Proof. exact message_trace_ok_names. Qed.
    cl->fileTransfer.fd (tree since fix commit 4d56b95, [fix_f7 = true]); descriptors lost earlier ([lost_fds])
    are not recovered by it.  This is an unfolding of the teardown step; the statement "a transfer never
    outlives its connection" over whole histories is C19_teardown_never_blocks (needs [repaired]), and for the
-   TightVNC extension it is FALSE for the tree: C19_tight_upload_fd_lost_refuted (F19f) *)
+   TightVNC extension the lost-descriptor case is part of C19_tight_every_entry_confined (TLostFd; it was false
+   before fb3fc0a: C19_tight_upload_fd_lost_prefix_refuted, F19f) *)
 Theorem C19_teardown_closes_descriptor_ultravnc : forall cfg envs st,
   fix_f7 cfg = true ->
   let '(_, _, st') := run_gone cfg envs st in fd_open st' = false /\ lost_fds st' = lost_fds st.
@@ -188,29 +189,29 @@ Proof. exact tight_gate_closed. Qed.
 Theorem C19_tight_dropped_is_silent : forall v root st ms, t_alive st = false -> tight_run v root st ms = [].
 Proof. exact tight_dead_is_silent. Qed.
 
-(* C19_tight_every_entry_confined, full statement
-     forall root ms st, name_ok root st -> Forall (op_ok root) (tight_run v_tight_tree root st ms)
-   (every path handed to stat/opendir/open/creat/utime/unlink/mkdir - incl. the unlink of the close hook
-   and the per-entry stat of a listing - is root ++ "/" ++ rel with rel never above the root, and no path
-   buffer overflows) is FALSE for the tree: *)
-Theorem C19_tight_every_entry_confined_refuted : exists root ms o,
-  In o (tight_run v_tight_tree root tstate0 ms) /\ ~ op_ok root o.
+(* C19_tight_every_entry_confined.  True for the tree since fix commits fb3fc0a (an undone upload is finished before
+   the next upload's name is read) and 2214ab9 (listing skips entries whose full path does not fit): for every
+   sequence of messages of every type with the gate open or closed per message, every path handed to
+   stat/opendir/open/creat/utime/unlink/mkdir - incl. the unlink of the close hook and the per-entry stat of a
+   listing - is root ++ "/" ++ rel with rel never above the root, no path buffer overflows, no upload descriptor is
+   lost.  CAVEAT (audit item 2): for root = "" [op_ok]/[below_root] hold for every absolute path without ".."
+   component - the theorem then confines nothing; and the extension does run with the empty root (F19e below). *)
+Theorem C19_tight_every_entry_confined : forall root ms st,
+  name_ok root st -> Forall (op_ok root) (tight_run v_tight_tree root st ms).
+Proof. exact tight_every_entry_confined. Qed.
+
+(* regression witnesses for the flow before those commits ([v_tight_pre45]; corpus/C19 scripts f19c, f19d, f19f) *)
+Theorem C19_tight_every_entry_confined_prefix_refuted : exists root ms o,
+  In o (tight_run v_tight_pre45 root tstate0 ms) /\ ~ op_ok root o.
 Proof. exact tight_every_entry_confined_refuted. Qed.      (* F19c: close hook unlinks an unconverted name *)
 
-Theorem C19_tight_listing_overflow_refuted : exists root ms,
-  In TOverflow (tight_run v_tight_tree root tstate0 ms).
+Theorem C19_tight_listing_overflow_prefix_refuted : exists root ms,
+  In TOverflow (tight_run v_tight_pre45 root tstate0 ms).
 Proof. exact tight_listing_overflow_refuted. Qed.          (* F19d: fullpath[PATH_MAX] strcpy/strcat *)
 
-Theorem C19_tight_upload_fd_lost_refuted : exists root ms,
-  In TLostFd (tight_run v_tight_tree root tstate0 ms).
+Theorem C19_tight_upload_fd_lost_prefix_refuted : exists root ms,
+  In TLostFd (tight_run v_tight_pre45 root tstate0 ms).
 Proof. exact tight_upload_fd_lost_refuted. Qed.            (* F19f: second upload request loses the first descriptor *)
-
-(* it holds for the flow with notes/fix_C19_4.diff and notes/fix_C19_5.diff.  CAVEAT (audit item 2): for
-   root = "" [op_ok]/[below_root] hold for every absolute path without ".." component - the theorem then
-   confines nothing; and the extension does run with the empty root: *)
-Theorem C19_tight_every_entry_confined_fixed : forall root ms st,
-  name_ok root st -> Forall (op_ok root) (tight_run v_tight_fixed root st ms).
-Proof. exact tight_every_entry_confined. Qed.
 
 (* F19e: "transfer switched on implies a non-empty root" is false (no usable passwd home, no -ftproot) *)
 Theorem C19_tight_enabled_implies_root_refuted : exists env args,
